@@ -82,7 +82,7 @@ type Mutation struct {
 }
 
 var mutOps = []string{"widen", "setuint", "arrlen+", "arrlen-", "swap", "dup", "del", "trail", "inner-trail", "crcstale", "bstrlen",
-	"inner-widen", "inner-setuint", "inner-swap", "inner-dup", "inner-del", "inner-arrlen+", "inner-arrlen-"}
+	"inner-widen", "inner-setuint", "inner-swap", "inner-dup", "inner-del", "inner-arrlen+", "inner-arrlen-", "setarg", "inner-setarg"}
 
 // GenMutations draws a list of mutations.
 func GenMutations(max int) *rapid.Generator[[]Mutation] {
@@ -185,7 +185,13 @@ func applyMutations(raw []byte, muts []Mutation, fix bool) (out []byte, stale bo
 			}
 		case "crcstale":
 			stale = true
-		case "inner-widen", "inner-setuint", "inner-swap", "inner-dup", "inner-del", "inner-arrlen+", "inner-arrlen-":
+		case "setarg":
+			// the declared length / count / value of any head, content untouched
+			if !n.Indef && n.Major != MajOther {
+				n.Arg = m.A
+				n.HeadN = 0
+			}
+		case "inner-widen", "inner-setuint", "inner-swap", "inner-dup", "inner-del", "inner-arrlen+", "inner-arrlen-", "inner-setarg":
 			// mutate the CBOR item inside a byte string (block-type specific data)
 			var bstrs []*Item
 			for _, x := range nodes {
@@ -199,7 +205,7 @@ func applyMutations(raw []byte, muts []Mutation, fix bool) (out []byte, stale bo
 				continue
 			}
 			x := bstrs[m.Node%len(bstrs)]
-			sub := Mutation{Op: m.Op[len("inner-"):], Node: int(m.A>>8) % 64, A: m.A, B: m.B}
+			sub := Mutation{Op: m.Op[len("inner-"):], Node: m.B, A: m.A, B: m.B}
 			if inner, _, ok := applyRaw(x.Bytes, []Mutation{sub}); ok {
 				x.Bytes = inner
 				x.Arg = uint64(len(inner))
@@ -247,6 +253,64 @@ func FixCRCs(raw []byte) []byte {
 	fix(w.Primary.Item, w.Primary.CRCType, w.Primary.CRCItem)
 	for i := range w.Blocks {
 		fix(w.Blocks[i].Item, w.Blocks[i].CRCType, w.Blocks[i].CRCItem)
+	}
+	return out
+}
+
+// CountNodes returns the number of items in the encoding raw (0 if undecodable), and for
+// every byte-string node whose content is itself one CBOR item the number of items inside.
+func CountNodes(raw []byte) (outer int, inner []int) {
+	top, err := DecodeItem(raw, 0)
+	if err != nil {
+		return 0, nil
+	}
+	var nodes []*Item
+	collect(top, &nodes)
+	for _, x := range nodes {
+		if x.Major == MajBytes && len(x.Bytes) > 0 {
+			if in, err := DecodeItem(x.Bytes, 0); err == nil && in.End == len(x.Bytes) {
+				var sub []*Item
+				collect(in, &sub)
+				inner = append(inner, len(sub))
+			}
+		}
+	}
+	return len(nodes), inner
+}
+
+// LengthBoundaries are the values every length/count field is set to (C04).
+var LengthBoundaries = []uint64{0, 1, 23, 24, 1 << 16, 1<<31 - 1, 1 << 31, 1<<32 - 1, 1 << 62, 1 << 63, 1<<64 - 1}
+
+// LengthMutants enumerates: every head of raw (outer items, and items inside byte strings
+// that contain CBOR) with its argument set to each boundary value, one at a time; CRCs are
+// not repaired (allocation happens before a CRC is checked).
+func LengthMutants(raw []byte) [][]byte {
+	var out [][]byte
+	outer, inner := CountNodes(raw)
+	for k := 0; k < outer; k++ {
+		for _, v := range LengthBoundaries {
+			if m, _, ok := applyMutations(raw, []Mutation{{Op: "setarg", Node: k, A: v}}, false); ok {
+				out = append(out, m)
+			}
+		}
+	}
+	for bi, n := range inner {
+		for k := 0; k < n; k++ {
+			for _, v := range LengthBoundaries {
+				if m, _, ok := applyMutations(raw, []Mutation{{Op: "inner-setarg", Node: bi, A: v, B: k}}, false); ok {
+					out = append(out, m)
+				}
+			}
+		}
+	}
+	return out
+}
+
+// Truncations returns every proper prefix of raw.
+func Truncations(raw []byte) [][]byte {
+	var out [][]byte
+	for i := 0; i < len(raw); i++ {
+		out = append(out, append([]byte(nil), raw[:i]...))
 	}
 	return out
 }
